@@ -487,6 +487,60 @@ fn oracle_injective_small(all: &Vec<PredM>, obs: &mut Obs) -> Result<(), Violati
     Ok(())
 }
 
+/// The address-from-addresses helpers on arbitrary address lists (shared prefixes, repeats, any order).
+#[derive(Clone, Debug, Hash, Serialize, Deserialize)]
+pub struct AddrList {
+    pub addrs: Vec<[u8; 32]>,
+    pub salt: [u8; 32],
+}
+
+fn oracle_addr_list(c: &AddrList, obs: &mut Obs) -> Result<(), Violation> {
+    let mut sorted = c.addrs.clone();
+    sorted.sort();
+    let mut pre: Vec<u8> = sorted.iter().flatten().copied().collect();
+    let set_want = sha256(&pre);
+    pre.extend_from_slice(&c.salt);
+    let contract_want = sha256(&pre);
+    let list: Vec<ContentAddress> = c.addrs.iter().map(|a| ContentAddress(*a)).collect();
+    ensure!(
+        contract_addr::from_predicate_addrs(list.clone(), &c.salt).0 == contract_want,
+        "addr:from-addrs",
+        "from_predicate_addrs is not sha256(sorted addresses ++ salt) for {} addresses",
+        c.addrs.len()
+    );
+    let mut sl = list.clone();
+    ensure!(
+        contract_addr::from_predicate_addrs_slice(&mut sl, &c.salt).0 == contract_want,
+        "addr:from-addrs",
+        "from_predicate_addrs_slice is not sha256(sorted addresses ++ salt)"
+    );
+    ensure!(sl.iter().map(|a| a.0).collect::<Vec<_>>() == sorted, "addr:slice-not-sorted", "from_predicate_addrs_slice does not leave the slice sorted");
+    ensure!(
+        solution_set_addr::from_solution_addrs(list.clone()).0 == set_want,
+        "addr:from-addrs",
+        "from_solution_addrs is not sha256(sorted addresses) for {} addresses",
+        c.addrs.len()
+    );
+    let mut sl = list;
+    ensure!(solution_set_addr::from_solution_addrs_slice(&mut sl).0 == set_want, "addr:from-addrs", "from_solution_addrs_slice is not sha256(sorted addresses)");
+    ensure!(sl.iter().map(|a| a.0).collect::<Vec<_>>() == sorted, "addr:slice-not-sorted", "from_solution_addrs_slice does not leave the slice sorted");
+    obs.nontrivial_if(c.addrs.len() >= 2);
+    Ok(())
+}
+
+fn addr_list() -> impl Strategy<Value = AddrList> {
+    // addresses that share long prefixes / suffixes, repeats, and random ones
+    let addr = prop_oneof![
+        3 => (any::<u8>(), 0usize..32, any::<u8>()).prop_map(|(fill, pos, x)| {
+            let mut a = [fill % 3; 32];
+            a[pos] = x;
+            a
+        }),
+        1 => gen::bytes32(),
+    ];
+    (proptest::collection::vec(addr, 0..8), gen::bytes32()).prop_map(|(addrs, salt)| AddrList { addrs, salt })
+}
+
 pub fn property() -> Property {
     Property {
         id: "C17",
@@ -516,6 +570,7 @@ pub fn property() -> Property {
                 oracle_exhaustive_perturb,
             ),
             enum_sub("addr.injective_small", exhaustive_small, oracle_injective_small).shards(1),
+            prop_sub("addr.from_address_lists", 60_000, 500_000, |_| addr_list(), oracle_addr_list),
         ],
     }
 }
